@@ -131,6 +131,8 @@ impl PathSelector {
     ///  Returns true if pattern can match absolute paths
     fn is_absolute(pattern: &Pattern) -> bool {
         let s = pattern.to_string();
+        // a regex with a top-level alternation is enclosed in a non-capturing group
+        let s = s.strip_prefix("(?:").unwrap_or(&s);
         s.starts_with(".*") || Path::from(s).is_absolute()
     }
 }
